@@ -7,16 +7,18 @@ Here the containers are composed **once and for all**: `Path g s ts a b` says th
 the evaluation of the `_parse` call `a` (of the transcribed parser `parse g s fuel`) through a chain of
 *propagating positions* (`ImplStep`, `Lemmas/FatalPath.lean`: And first / later element, MatchFirst alternative after
 soft failures, Opt, first / later iteration of OneOrMore / ZeroOrMore, Group / Suppress / Combine / Forward / plain
-ParseElementEnhance, FollowedBy, Located), nested to any depth; `ts` lists, outermost first, what each container
+ParseElementEnhance, FollowedBy, Located; and the positions the property text does not name but the code propagates
+from as well: the SkipTo target (scan and `include` re-parse), the ignore-expressions run by `preParse` and by the
+repetition loop), nested to any depth; `ts` lists, outermost first, what each container
 does to an exception on its way out (`Tag`).
 
 Not propagating positions (and deliberately not constructors): NotAny, `stop_on`, SkipTo `fail_on` / `ignore`
 (they go through `try_parse`, which converts a fatal into a non-match: `tryParse_converts_fatal`,
 `notany_treats_fatal_as_nonmatch`), Or (raises a collected fatal only if nothing matched:
 `or_fatal_only_if_none_matched`), Each (outside the model).
-Propagating in the code but NOT covered by a constructor here: the `ignore` expressions run by `preParse`
-(`ignoreOne` re-raises a fatal), the target expression of SkipTo (`skipScan` / `skipToImpl` re-raise a fatal), and
-the alternative re-parsed by Or after its trial pass.
+Propagating in the code but NOT covered by a constructor here: the alternative re-parsed by Or after its trial pass,
+the ignore-expressions run by the pre-parse that Or and StringStart do inside their `parseImpl`, and LineStart's
+own `preParse`.
 -/
 namespace PP.Parse
 
@@ -33,10 +35,15 @@ def Call.run (g : Grammar) (s : List Char) (c : Call) : Out := parse g s c.fuel 
 /-- the call `a` (`_parseNoCache` of node `id`) pre-parses to `pre`, and its `parseImpl` makes the call `b` in a
     propagating position -/
 inductive Step (g : Grammar) (s : List Char) : Tag → Call → Call → Prop
-  | mk {f id loc acts cp nd pre t e l' cp'} : g[id]? = some nd →
+  | mk {f id loc acts cp nd pre t e l' acts' cp'} : g[id]? = some nd →
       (if cp && nd.callPre then preParse (parse g s f) nd s loc else PreR.at loc) = .at pre →
-      ImplStep g s (parse g s f) nd pre acts t e l' cp' →
-      Step g s t ⟨f + 1, id, loc, acts, cp⟩ ⟨f, e, l', acts, cp'⟩
+      ImplStep g s (parse g s f) nd pre acts t e l' acts' cp' →
+      Step g s t ⟨f + 1, id, loc, acts, cp⟩ ⟨f, e, l', acts', cp'⟩
+  /-- the pre-parse of `a` (`preParse` → `_skipIgnorables`) calls the ignore-expression `e` at `l'` -/
+  | ignore {f id loc acts cp nd e l'} : g[id]? = some nd → (cp && nd.callPre) = true →
+      (∀ x y, nd.kind ≠ .lineStart x y) → nd.ignore.isEmpty = false →
+      IgnCall (parse g s f) s.length nd.ignore loc e l' →
+      Step g s .plain ⟨f + 1, id, loc, acts, cp⟩ ⟨f, e, l', true, true⟩
 
 /-- reflexive-transitive closure: `b` is reached from `a` through propagating positions only; tags outermost first -/
 inductive Path (g : Grammar) (s : List Char) : List Tag → Call → Call → Prop
@@ -51,6 +58,12 @@ theorem step_fail {g : Grammar} {s : List Char} {t : Tag} {a b : Call} (h : Step
   cases h with
   | mk hg hpre hi =>
     exact parseStep_failure_passes g s _ _ _ _ _ _ _ _ _ hg hpre (implStep_fail hi c l hb hc)
+  | ignore hg hcp hk hne hi =>
+    have hfat : c.isFatal = true := hc.resolve_right (by simp)
+    have := preParse_fatal hk hne hi c l hb hfat
+    show parseStep g s _ _ _ _ _ = _
+    unfold parseStep
+    simp only [hg, hcp, if_true, this, Tag.app]
 
 /-- **C07, any depth (exact form).**  If the call `b` is reached from the call `a` through propagating positions
     nested to any depth and `b` raises a fatal exception (ParseFatalException or ParseSyntaxException) of class `c`
